@@ -507,6 +507,29 @@ class A:
         dt = self.dtype if self.kind in "fu" else real_np.dtype("int64")
         return A(out, dt)
 
+    def searchsorted(self, v, side="left", sorter=None):
+        """positions in a sorted 1-D array: number of elements strictly below (side='left') / not above (side='right') each value;
+        NaN values sort after everything"""
+        if sorter is not None or self.ndim != 1:
+            raise Unsupported("searchsorted with a sorter / on 2-D")
+        from .values import SF as _SF, total
+        edges = self.cells
+        scalar = not isinstance(v, A)
+        vals = [v] if scalar else v.cells
+        out = []
+        for x in vals:
+            terms = []
+            for e in edges:
+                if isinstance(x, _SF) or isinstance(e, _SF):
+                    xs, es = _SF.of(x), _SF.of(e)
+                    below = es.lt(xs) if side == "left" else es.le(xs)
+                    below = b_or(below, b_and(xs.nan, b_not(es.nan)))
+                else:
+                    below = (e < x) if side == "left" else (e <= x)
+                terms.append(ite(below, 1, 0))
+            out.append(total(terms, 0) if terms else 0)
+        return out[0] if scalar else A(out, "int64", v.shape)
+
     def argsort(self, *a, **k):
         cells = self.cells
         if any(is_sym(c) or isinstance(c, SF) for c in cells):
